@@ -590,6 +590,14 @@ def rule_R3_fields(ctx, repo, reg_pos):
             else:
                 kw = {k.arg: k.value for k in tocsv[0].keywords}
                 hdr = kw.get("header")
+                idx = kw.get("index")
+                ctx.check(None if (idx is not None and not isinstance(idx, ast.Constant)) else
+                          (isinstance(idx, ast.Constant) and idx.value is False), "R3", "HDDResults.save_predictions:no-index-column",
+                          "only the record's columns are written (index=False)",
+                          "to_csv writes the frame's row index as an extra column (index=%s); the row index comes from the caller's data "
+                          "(y_true), so a data set whose row index is named like a record column (e.g. 'index') shadows that column "
+                          "when load_predictions reads by name: the stored instance index is not what is read back"
+                          % ("True by default" if idx is None else astq.canon(idx)), ctx.loc(dcls.module, tocsv[0]))
                 ctx.check(hdr is None or (isinstance(hdr, ast.Constant) and hdr.value is True), "R3",
                           "HDDResults.save_predictions:header", "column names are written",
                           "to_csv(header=%s): column names are not written but load_predictions reads by name" % astq.canon(hdr),
@@ -1837,13 +1845,29 @@ def rule_default_features(ctx, repo):
         Interp(repo, M.make_externals(M.VFS()), M.to_float, M.str_hook).call_function(kcls.module, fn, [task, data])
     except U as e:
         ctx.undecided("R4", c, str(e), loc)
-        return
+        task.attrs["_features"] = "?"
     except PyRaise as e:
         ctx.violation("R4", c, "set_metadata raises %s for a task without explicit features" % (e.exc,), loc)
-        return
+        task.attrs["_features"] = "?"
+    # a task with an explicit feature list keeps exactly that list
+    c2 = "BaseTask.set_metadata:explicit-features"
+    task2 = _Instance(repo, cls, {"_target": "target", "_features": M.IndexV(["dim_a"]), "_metadata": None})
+    try:
+        Interp(repo, M.make_externals(M.VFS()), M.to_float, M.str_hook).call_function(kcls.module, fn, [task2, data])
+        got2 = task2.attrs.get("_features")
+        got2 = list(got2.labels) if isinstance(got2, M.IndexV) else got2
+        ctx.check(got2 == ["dim_a"], "R4", c2, "an explicit feature list is kept as given",
+                  "a task created with features ['dim_a'] has features %s after set_metadata: the estimator is fitted on other "
+                  "columns than the task specifies" % (got2,), loc)
+    except U as e:
+        ctx.undecided("R4", c2, str(e), loc)
+    except PyRaise as e:
+        ctx.violation("R4", c2, "set_metadata raises %s for a task with explicit features ['dim_a']" % (e.exc,), loc)
     got = task.attrs.get("_features")
     got = list(got.labels) if isinstance(got, M.IndexV) else (list(got) if isinstance(got, (list, tuple)) else got)
     want = [k for k in cols if k != "target"]
+    if got == "?":
+        return
     if got == want:
         ctx.ok("R4", c, "default features = data columns without the target, in data order", loc)
     elif isinstance(got, list) and sorted(got) == sorted(want):
